@@ -82,6 +82,11 @@ class Gen:
         if in_block:
             choices.append(("endblock", 3))
             choices.append(("endblocks", 1))
+        elif "endany" in f and depth > 0:
+            # optional feature: End block / End blocks also in a Watch / Alarm / Macro body that is not lexically
+            # inside a block (it then acts on whatever blocks the other generators have open)
+            choices.append(("endblock", 2))
+            choices.append(("endblocks", 2))
         if self.macros and "macro" in f:
             choices.append(("call", 3))
         if depth < self.max_depth and budget >= 2:
